@@ -884,9 +884,14 @@ impl Check for C16 {
         let k = Rc::new(NetKern { short_p: Cell::new(0), eintr_left: Cell::new(0), n_short: Cell::new(0), n_eintr: Cell::new(0), n_ppoll_parked: Cell::new(0), n_ppoll_timeout: Cell::new(0) });
         sim.set_kernel(&*k);
         let t0 = sim.mono_ns;
-        let o = match case % 4 {
-            0 => stream_case(&mut sim, &k, false, case, opts.tier == Tier::Thorough && case % 64 == 0),
-            1 => stream_case(&mut sim, &k, true, case, opts.tier == Tier::Thorough && case % 64 == 1),
+        // the scenario family by a hash of the case number (cases are dealt to the workers
+        // round-robin: a plain modulus would give every worker a single family)
+        let hk = simk::dec::mix(&[case, 0xc16]);
+        let kind = hk % 4;
+        let long = opts.tier == Tier::Thorough && (hk >> 8) % 32 == 0;
+        let o = match kind {
+            0 => stream_case(&mut sim, &k, false, case, long),
+            1 => stream_case(&mut sim, &k, true, case, long),
             2 => timeout_case(&mut sim, &k, case),
             _ => scm_case(&mut sim, case),
         };
@@ -894,9 +899,9 @@ impl Check for C16 {
         // loopback TCP is delivered asynchronously (softirq, delayed ACK and Nagle timers): how often a
         // parked thread has to look again differs between executions, so TCP runs are identified by
         // their decisions and outcome only; unix-socket and SCM runs by the full event log
-        let tcp_case = case % 4 == 1 || (case % 4 == 2);
+        let tcp_case = kind == 1 || kind == 2;
         out.hash = if tcp_case {
-            let mut h = simk::dec::mix(&[case % 4, u64::from(sim.violation.is_some())]);
+            let mut h = simk::dec::mix(&[kind, u64::from(sim.violation.is_some())]);
             for d in sim.dec.log.iter().filter(|d| d.0 == K::Cfg as u8 || d.0 == K::Arg as u8 || d.0 == K::Op as u8) {
                 h = simk::dec::mix(&[h, u64::from(d.2)]);
             }
